@@ -1,3 +1,4 @@
+import XcmModel.Lemmas.Btls
 import XcmModel.Props.C16
 import XcmModel.Lemmas.Framing
 import XcmModel.Lemmas.Api
@@ -172,3 +173,51 @@ example : (Api.send { blocking := true, bytestream := false } 10 (refusals 2 ++ 
   decide
 
 end XcmModel.C04
+
+/-! ## btls: `conn_update` of xcm_tp_btls.c never leaves a waiter without a wake-up source -/
+namespace XcmModel.C04btls
+open XcmModel XcmModel.Btls
+
+theorem rs_cases {n : Nat} (h : isRS n) : n = 1 ∨ n = 2 := by
+  rcases h with h | h <;> simp [h, RECEIVABLE, SENDABLE, Generated.XCM_SO_RECEIVABLE, Generated.XCM_SO_SENDABLE]
+
+/-- while the TLS handshake is in progress the TCP socket below is always watched for what OpenSSL said it
+needs - whatever the application awaits, 0 included - so the handshake completes or fails without help -/
+theorem C04_btls_handshake_watched (s : St) (hi : WInv s) (hs : s.state = .handshaking) (cond : Nat) (hp : Bool) :
+    connUpdate s cond hp = (false, s.sslWants, true, false) ∧ s.sslWants ≠ 0 := by
+  have hw := rs_cases (hi.hsWants hs)
+  refine ⟨?_, by omega⟩
+  unfold connUpdate
+  simp only [hs]
+  rw [if_neg (by omega)]
+
+/-- ready connection, non-zero awaited condition: either the bell rings (the fd is readable at once) or the TCP
+socket below is asked to watch something - never neither -/
+theorem C04_btls_waiter_has_source (s : St) (hi : WInv s) (hs : s.state = .ready) (cond : Nat) (hp : Bool)
+    (hc : cond = 1 ∨ cond = 2 ∨ cond = 3) :
+    (connUpdate s cond hp).2.2.2 = false ∧
+    ((connUpdate s cond hp).1 = true ∨ ((connUpdate s cond hp).2.1 ≠ 0 ∧ (connUpdate s cond hp).2.2.1 = true)) := by
+  unfold connUpdate
+  simp only [hs]
+  by_cases h0 : s.sslCondition = 0
+  · rcases hc with hc | hc | hc <;> cases hp <;>
+      simp [hc, h0, RECEIVABLE, SENDABLE, Generated.XCM_SO_RECEIVABLE, Generated.XCM_SO_SENDABLE]
+  · obtain ⟨hw, hcd⟩ := hi.condWants h0
+    have hw := rs_cases hw
+    have hcd := rs_cases hcd
+    rcases hc with hc | hc | hc <;> rcases hw with hw | hw <;> rcases hcd with hcd | hcd <;> cases hp <;>
+      simp [hc, hw, hcd, RECEIVABLE, SENDABLE, Generated.XCM_SO_RECEIVABLE, Generated.XCM_SO_SENDABLE]
+
+/-- closed or failed: the bell rings, so the application is woken to collect the terminal condition -/
+theorem C04_btls_terminal_rings (s : St) (ht : Terminal s) (cond : Nat) (hp : Bool) :
+    (connUpdate s cond hp).1 = true := by
+  unfold connUpdate
+  rcases ht with h | ⟨e, h⟩ <;> simp [h]
+
+/-- decrypted bytes already sitting in OpenSSL make a RECEIVABLE waiter readable immediately -/
+theorem C04_btls_pending_rings (s : St) (hs : s.state = .ready) (cond : Nat) (hc : cond = 1 ∨ cond = 3) :
+    (connUpdate s cond true).1 = true := by
+  unfold connUpdate
+  rcases hc with hc | hc <;> simp [hs, hc, RECEIVABLE, Generated.XCM_SO_RECEIVABLE]
+
+end XcmModel.C04btls
